@@ -14,3 +14,138 @@ pub async fn run_sse_pipe(
 ) -> (Vec<Event>, u64) {
     crate::session::verif_run_sse_pipe(chunks, seq0, strict_validation, log_path).await
 }
+
+pub use crate::provider_openresponses::OpenResponsesConfig;
+pub use rip_provider_openresponses::ToolChoiceParam;
+
+use std::path::PathBuf;
+
+use crate::continuities::{
+    ContextCompiledPayload, ContextSelectionDecidedPayload, ContinuityRunLink, ContinuityStore,
+    ProviderCursorUpdatedPayload,
+};
+use serde_json::Value;
+
+/// The real application router with an explicit provider configuration and task policy.
+pub fn build_router(
+    data_dir: PathBuf,
+    workspace_root: PathBuf,
+    openresponses: Option<OpenResponsesConfig>,
+    allow_pty_tasks: bool,
+) -> axum::Router {
+    crate::server::build_app_with_workspace_root_and_provider_and_task_policy(
+        data_dir,
+        workspace_root,
+        openresponses,
+        allow_pty_tasks,
+    )
+}
+
+/// The server-side authority acquisition loop (stale/corrupt lock recovery included).
+#[cfg(not(test))]
+pub async fn acquire_authority_lock_with_recovery(
+    data_dir: &Path,
+    workspace_root: &Path,
+) -> Result<crate::AuthorityLockGuard, String> {
+    let client = reqwest::Client::new();
+    crate::server::verif_acquire_authority_lock_with_recovery(&client, data_dir, workspace_root)
+        .await
+}
+
+#[allow(clippy::too_many_arguments)]
+pub fn append_context_selection_decided(
+    store: &ContinuityStore,
+    continuity_id: &str,
+    run_session_id: &str,
+    message_id: &str,
+    compiler_strategy: &str,
+    limits: Value,
+    compaction_checkpoints: Vec<rip_kernel::ContextSelectionCompactionCheckpointV1>,
+    resets: Vec<rip_kernel::ContextSelectionResetV1>,
+    reason: Option<Value>,
+    provenance: (&str, &str),
+) -> Result<String, String> {
+    store.append_context_selection_decided(
+        continuity_id,
+        ContextSelectionDecidedPayload {
+            run_session_id: run_session_id.to_string(),
+            message_id: message_id.to_string(),
+            compiler_id: "rip.context_compiler.v1".to_string(),
+            compiler_strategy: compiler_strategy.to_string(),
+            limits,
+            compaction_checkpoint: compaction_checkpoints.last().cloned(),
+            compaction_checkpoints,
+            resets,
+            reason,
+            actor_id: provenance.0.to_string(),
+            origin: provenance.1.to_string(),
+        },
+    )
+}
+
+#[allow(clippy::too_many_arguments)]
+pub fn append_context_compiled(
+    store: &ContinuityStore,
+    continuity_id: &str,
+    run_session_id: &str,
+    bundle_artifact_id: &str,
+    compiler_strategy: &str,
+    from_seq: u64,
+    from_message_id: Option<String>,
+    provenance: (&str, &str),
+) -> Result<String, String> {
+    store.append_context_compiled(
+        continuity_id,
+        ContextCompiledPayload {
+            run_session_id: run_session_id.to_string(),
+            bundle_artifact_id: bundle_artifact_id.to_string(),
+            compiler_id: "rip.context_compiler.v1".to_string(),
+            compiler_strategy: compiler_strategy.to_string(),
+            from_seq,
+            from_message_id,
+            actor_id: provenance.0.to_string(),
+            origin: provenance.1.to_string(),
+        },
+    )
+}
+
+#[allow(clippy::too_many_arguments)]
+pub fn append_provider_cursor_updated(
+    store: &ContinuityStore,
+    continuity_id: &str,
+    provider: &str,
+    endpoint: Option<String>,
+    model: Option<String>,
+    cursor: Option<Value>,
+    action: &str,
+    reason: Option<String>,
+    run_session_id: Option<String>,
+    provenance: (&str, &str),
+) -> Result<String, String> {
+    store.append_provider_cursor_updated(
+        continuity_id,
+        ProviderCursorUpdatedPayload {
+            provider: provider.to_string(),
+            endpoint,
+            model,
+            cursor,
+            action: action.to_string(),
+            reason,
+            run_session_id,
+            actor_id: provenance.0.to_string(),
+            origin: provenance.1.to_string(),
+        },
+    )
+}
+
+/// The run-time context compile entry point. Returns the selection decision, the compiled
+/// result (bundle artifact id, cut point) and the provider items as plain JSON.
+pub fn compile_context_for_run(
+    store: &ContinuityStore,
+    event_log: &rip_log::EventLog,
+    snapshot_dir: &Path,
+    run: &ContinuityRunLink,
+    run_session_id: &str,
+) -> Result<Value, String> {
+    crate::session::verif_compile_context_for_run(store, event_log, snapshot_dir, run, run_session_id)
+}
